@@ -161,10 +161,13 @@ func (c *crashRun) fileSizes() map[string]fileInfo {
 			}
 			name := d + "/" + e.Name()
 			w, ok := c.written[name]
+			sy := c.synced[name]
 			if !ok {
+				// a file this run never wrote under this name has no unflushed tail
 				w = info.Size()
+				sy = w
 			}
-			m[name] = fileInfo{Written: w, Synced: c.synced[name]}
+			m[name] = fileInfo{Written: w, Synced: sy}
 		}
 	}
 	return m
@@ -197,6 +200,20 @@ func (c *crashRun) onEvent(ev, file string, n int64) {
 	c.events = append(c.events, rec)
 	// logical size of the file as the engine sees it: size at open + bytes written
 	switch ev {
+	case "adopt.rename", "adopt.hint":
+		// the crash point precedes the rename of <dir>-merge/<f> over <dir>/<f>: from the next event on the name in the
+		// data directory denotes the renamed file, with that file's written / flushed lengths (a rename keeps the content
+		// and its durability; the file it replaces is gone)
+		src := filepath.ToSlash(filepath.Join(filepath.Dir(name)+"-merge", filepath.Base(name)))
+		if w, ok := c.written[src]; ok {
+			c.written[name] = w
+			c.synced[name] = c.synced[src]
+		} else {
+			delete(c.written, name)
+			delete(c.synced, name)
+		}
+		delete(c.written, src)
+		delete(c.synced, src)
 	case "open":
 		if _, seen := c.written[name]; !seen {
 			if st, err := os.Stat(file); err == nil {
